@@ -21,7 +21,8 @@ Why(a, v, p, o) ==
     IF o.res = "invalid" THEN "ResultDocumented"
     ELSE IF ~StepIsOne(a, v, o) THEN "StepIsOne"
     ELSE IF ~LineStepStops(a, v, p, o) THEN "LineStepStopsAtNewLine"
-    \* (how far leave_scope runs into the enclosing scope is not fixed by the property: not asserted)
+    \* (where leave_scope halts in the enclosing scope is not fixed by the property; that it leaves one scope, not more, is)
+    ELSE IF ~LeaveScopeLeavesOne(a, v, o) THEN "LeaveScopeLeavesOneScope"
     ELSE IF ~StartCompletes(a, v, p, o) THEN "StartCompletes"
     ELSE IF ~ControlResult(a, p, o) THEN "ControlResult"
     ELSE IF ~ResultClass(a, p, o) THEN "ResultDocumented"
